@@ -154,6 +154,8 @@ fn prefix_alphabet() -> Vec<&'static str> {
     vec![
         ".ORG 0", ".ORG 1", ".ORG 5", ".ORG 0x7F", ".BYTE 0", ".BYTE 1", ".BYTE 2", ".BYTE 7", ".DB 1", ".DB 1, 2, 3", ".DW 0x1234", ".DW 0, 0xFFFF, 0x00FF", ".EQU Q 9", "NOP", "JR LBL",
         "LD R0, (LBL)", "MOV (LBL), (lbl2)",
+        // lines that emit nothing
+        "*STACKSIZE 32", "*PROGRAMSIZE 7", "; only a comment", "",
     ]
 }
 
